@@ -20,13 +20,14 @@ class C25(Spec):
                   "The model is tied to blockchain/ by a differential run: generated block trees "
                   "above a short trunk are minted on a producer testnode and delivered in generated orders (children before "
                   "parents, duplicates, interleaved branches) to fresh non-mining testnodes; per delivery the result and tip, "
-                  "and per case height->hash, every total difficulty, orphan-pool membership and the sequence log are "
-                  "compared with the Lean driver; the property predicate (tip = unique heaviest eligible branch; persisted "
+                  "and per case height->hash, every total difficulty, orphan-pool membership, tx-index lookups and the "
+                  "sequence log are compared with the Lean driver; the property predicate (tip = unique heaviest eligible branch; persisted "
                   "chain = fresh node fed the winning branch) is evaluated on the implementation.")
     level_note = ("all delivered blocks are valid (execution succeeds); index/orphan cache limits, orphan expiry, restart, "
                   "EnableBestBlockCmp and a finaliser moving up during the run are outside the model (the model's downward "
-                  "reset is covered); finalised height 0 (no finaliser configured) in the tie; tx index / state at tip "
-                  "are compared on the implementation only (fresh-node snapshot), not modelled.")
+                  "reset is covered); finalised height 0 (no finaliser configured) in the tie; the tx index is modelled as "
+                  "tx hash -> height (TxResult index/receipt, address indexes and the state read at the tip are compared "
+                  "on the implementation only: fresh-node snapshot).")
     assumptions = (
         "delivered blocks are valid and execute successfully (invalid blocks are C27)",
         "index cache (102400), best-chain cache (10240), orphan pool limit (10240) and orphan expiry (10 min) are not reached",
